@@ -12,7 +12,7 @@
    'pack') and for get_cursor_coords the statements are REFUTED by witnesses below (defects of urwid). *)
 From Coq Require Import ZArith List Bool.
 Import ListNotations.
-From Urwid Require Import PyBase geo_padfill_gen Geometry GeometryFacts GeometryProofs.
+From Urwid Require Import PyBase geo_padfill_gen Geometry GeometryFacts GeometryProofs GeometryMoveProofs.
 Open Scope Z_scope.
 
 (* ------------------------------------------------------------------------------------------ *)
@@ -152,6 +152,54 @@ Proof.
 Qed.
 Print Assumptions child_view_is_subwidget.
 
+(* ... and afterwards the reported cursor is on the requested row.  [m_asked m <> None]: the request went
+   down to a leaf (every widget on the way implements move_cursor_to_coords).  Structural induction over
+   the tree.  PARTIAL: proved for moves that leave the focus of every Columns on the way where it was
+   ([cols_same]: same tree shape, same Columns focus positions; Pile focus and leaf cursors may change).
+   What is missing for the full statement: Columns.column_widths depends on focus_position (columns right
+   of the focus are dropped first), so after a focus change the sizes handed to the children are the same
+   only because everything fits; that needs a proof that column_widths is independent of the focus when no
+   column is dropped, and congruence of every container's size helpers.  The remaining case (a Columns
+   whose focus moves) is decided by the correspondence and the oracle. *)
+Theorem cursor_on_requested_row_partial :
+  forall w s col row,
+    fits w s = true -> i_hasmove (info w) = true ->
+    let m := move_cursor w s col row in
+    m_ok m = true -> m_asked m <> None -> cols_same w (m_w m) = true ->
+    fits (m_w m) s = true /\ exists x, cursor_coords (m_w m) s = CSome x row.
+Proof.
+  intros w s col row Hf Hm m Hok Hasked Hsame.
+  destruct (move_ok_all w s col row Hf Hm Hok Hsame) as [_ [H1 H2]].
+  split; [exact H1|]. destruct (H2 Hasked) as [_ [_ H3]]. exact H3.
+Qed.
+Print Assumptions cursor_on_requested_row_partial.
+
+Definition cursor_on_requested_row_full : Prop :=
+  forall w s col row,
+    fits w s = true -> i_hasmove (info w) = true ->
+    let m := move_cursor w s col row in
+    m_ok m = true -> m_asked m <> None ->
+    exists x, cursor_coords (m_w m) s = CSome x row.
+
+(* ------------------------------------------------------------------------------------------ *)
+(* about the translated code (regenerated from padding.py / filler.py on every run): unless the  *)
+(* width type is 'clip', the margins a Padding / Filler / Overlay computes are never negative,   *)
+(* i.e. these decorations never trim their child; the margin part of [fits] always holds          *)
+(* ------------------------------------------------------------------------------------------ *)
+Theorem padding_margins_nonneg :
+  forall maxcol at_ aamt wt wamt minw l r, wt <> GClip ->
+    0 <= fst (calculate_left_right_padding maxcol at_ aamt wt wamt minw l r) /\
+    0 <= snd (calculate_left_right_padding maxcol at_ aamt wt wamt minw l r).
+Proof. exact clrp_nonneg. Qed.
+Print Assumptions padding_margins_nonneg.
+
+Theorem filler_margins_nonneg :
+  forall maxrow vt vamt ht hamt minh t b,
+    0 <= fst (calculate_top_bottom_filler maxrow vt vamt ht hamt minh t b) /\
+    0 <= snd (calculate_top_bottom_filler maxrow vt vamt ht hamt minh t b).
+Proof. exact ctbf_nonneg. Qed.
+Print Assumptions filler_margins_nonneg.
+
 (* ------------------------------------------------------------------------------------------ *)
 (* non-vacuity: the hypotheses are met by an ordinary tree and the model computes                *)
 (* ------------------------------------------------------------------------------------------ *)
@@ -177,6 +225,12 @@ Example example_mouse_and_move :
   mouse_leaf example_tree (9, None) 6 2 true = Some (Hit 1 1 1 false (3, None)) /\
   let m := move_cursor example_tree (9, None) 6 2 in
   m_ok m = true /\ m_asked m = Some (1, 1, 1, (3, None)) /\ cursor_coords (m_w m) (9, None) = CSome 6 2.
+Proof. vm_compute. auto. Qed.
+
+Example example_move_same_columns_focus :
+  let m := move_cursor example_tree (9, None) 4 3 in
+  m_ok m = true /\ m_asked m = Some (2, 1, 0, (3, None)) /\ cols_same example_tree (m_w m) = true /\
+  i_hasmove (info example_tree) = true /\ cursor_coords (m_w m) (9, None) = CSome 4 3.
 Proof. vm_compute. auto. Qed.
 
 Example example_place :
